@@ -428,6 +428,60 @@ fn degenerate_keys<S: ShortGroupSignatureScheme>(em: &mut Emitter, rng: &mut Rng
     }
 }
 
+/// BBS keys made with `SecretKey::random` directly (no capacity cap): generators stay pairwise different and bind their
+/// positions beyond 128 and 256 messages too
+fn bbs_beyond_cap(em: &mut Emitter, rng: &mut Rng) {
+    let ns: Vec<usize> = if em.thorough() { vec![129, 256, 257, 300, 513] } else { vec![257, 300] };
+    for n in ns {
+        let sk = match call_total(|| bbs::SecretKey::random(NonZeroUsize::new(n).unwrap(), rng.chacha())) {
+            Out::Ok(k) => k,
+            _ => continue,
+        };
+        let pk = bbs::PublicKey::from(&sk);
+        em.oracle_case(&format!("bbs beyond-cap n={}", n));
+        em.count("bbs:beyond-cap");
+        let kv = serde_json::to_value(&pk).unwrap_or_default();
+        if let Some(a) = kv["y"].as_array() {
+            let mut seen: std::collections::BTreeMap<&str, usize> = std::collections::BTreeMap::new();
+            for (i, x) in a.iter().enumerate() {
+                if let Some(t) = x.as_str() {
+                    if let Some(j) = seen.insert(t, i) {
+                        em.violation("key-generators-repeat", format!("bbs: generators {} and {} of a key of capacity {} are equal: the positions are interchangeable", j, i, n), json!({"suite": "bbs", "n": n}));
+                        break;
+                    }
+                }
+            }
+        }
+        let msgs: Vec<Scalar> = (0..n).map(|i| Scalar::from(1000u64 + i as u64)).collect();
+        let sig = match call_total(|| bbs::BbsScheme::sign(&sk, &msgs)) {
+            Out::Ok(Ok(s)) => s,
+            _ => {
+                em.count("bbs:beyond-cap:sign-refused");
+                continue;
+            }
+        };
+        if !bool::from(sig.verify(&pk, &msgs)) {
+            em.count("bbs:beyond-cap:verify-refused");
+            continue;
+        }
+        let mut pairs = vec![(0usize, n - 1), (n - 2, n - 1)];
+        if n > 256 {
+            pairs.push((0, 256));
+            pairs.push((n - 257, n - 1));
+        }
+        if n > 128 {
+            pairs.push((0, 128));
+        }
+        for (i, j) in pairs {
+            let mut m2 = msgs.clone();
+            m2.swap(i, j);
+            if bool::from(sig.verify(&pk, &m2)) {
+                em.violation("signature-verifies-with-messages-exchanged", format!("bbs: signature over {} messages verifies with messages {} and {} exchanged", n, i, j), json!({"suite": "bbs", "n": n, "i": i, "j": j}));
+            }
+        }
+    }
+}
+
 /// model level, BBS: key, signature and proof made by hand (all discrete logs known)
 fn model_bbs(em: &mut Emitter, rng: &mut Rng) {
     for case in 0..em.n(60, 1200) {
@@ -732,6 +786,7 @@ pub fn gen_c17(em: &mut Emitter, rng: &mut Rng) {
                elements, index edge cases, other key) — real verify verdict, hashed PS commitment and index→response lookup vs the Lean model".into();
     oracle_suite::<bbs::BbsScheme>(em, rng, "bbs");
     oracle_suite::<ps::PsScheme>(em, rng, "ps");
+    bbs_beyond_cap(em, &mut rng.sub(1721));
     degenerate_keys::<bbs::BbsScheme>(em, &mut rng.sub(1719), "bbs");
     degenerate_keys::<ps::PsScheme>(em, &mut rng.sub(1720), "ps");
     wide_suite::<bbs::BbsScheme>(em, &mut rng.sub(1717), "bbs");
